@@ -195,3 +195,6 @@ pub fn checksum(f: &[u8]) -> i128 {
     }
     a as i128
 }
+pub mod guard;
+pub mod nodes;
+pub mod shapes;
